@@ -144,3 +144,87 @@ func VerifC03_Endpoints() {
 	nd.Assert(len(ready) == nr && len(notReady) == nn, "nothing-but-designated-addresses")
 	nd.Reach("end")
 }
+
+type zzSliceCache struct {
+	types.Cache
+	slices []*discoveryv1.EndpointSlice
+}
+
+func (c *zzSliceCache) GetEndpointSlices(service *api.Service) ([]*discoveryv1.EndpointSlice, error) {
+	return c.slices, nil
+}
+
+// VerifC03_EndpointSlices: same statement through the EndpointSlice API (--enable-endpointslices-api):
+// 1..2 slices, each with one port (name, protocol) and up to two endpoints whose ready condition is
+// unset (to be read as ready), true or false.
+func VerifC03_EndpointSlices() {
+	svcPort := &api.ServicePort{Name: []string{"", "a", "b"}[nd.Choice("svcport.name", 3)], Port: 80}
+	if nd.Bool("svcport.proto.set") {
+		svcPort.Protocol = []api.Protocol{api.ProtocolTCP, api.ProtocolUDP}[nd.Choice("svcport.proto", 2)]
+	}
+	wantProto := api.ProtocolTCP
+	if svcPort.Protocol != "" {
+		wantProto = svcPort.Protocol
+	}
+	ips := []string{"10.0.0.1", "10.0.0.2", "10.0.0.3", "10.0.0.4"}
+	type exp struct {
+		ip    string
+		port  int
+		ready bool
+	}
+	var want []exp
+	var slices []*discoveryv1.EndpointSlice
+	nsl := 1 + nd.Choice("slices", 2)
+	k := 0
+	for s := 0; s < nsl; s++ {
+		sl := &discoveryv1.EndpointSlice{}
+		pname := []string{"a", "b"}[nd.Choice("epport.name", 2)]
+		proto := []api.Protocol{api.ProtocolTCP, api.ProtocolUDP}[nd.Choice("epport.proto", 2)]
+		pnum := int32(8080 + s)
+		sl.Ports = []discoveryv1.EndpointPort{{Name: &pname, Port: &pnum, Protocol: &proto}}
+		matches := proto == wantProto && (svcPort.Name == "" || svcPort.Name == pname)
+		nep := nd.Choice("endpoints", 3)
+		for e := 0; e < nep; e++ {
+			ep := discoveryv1.Endpoint{Addresses: []string{ips[k]}}
+			isReady := true
+			switch nd.Choice("ready", 3) {
+			case 1:
+				t := true
+				ep.Conditions.Ready = &t
+			case 2:
+				f := false
+				ep.Conditions.Ready = &f
+				isReady = false
+			}
+			sl.Endpoints = append(sl.Endpoints, ep)
+			if matches {
+				want = append(want, exp{ips[k], int(pnum), isReady})
+			}
+			k++
+		}
+		slices = append(slices, sl)
+	}
+	ready, notReady, err := CreateEndpoints(&zzSliceCache{slices: slices}, &api.Service{}, svcPort, true)
+	nd.Assert(err == nil, "no-error")
+	nr, nn := 0, 0
+	for _, w := range want {
+		list := ready
+		if !w.ready {
+			list = notReady
+		}
+		found := false
+		for _, e := range list {
+			if e.IP == w.ip && e.Port == w.port {
+				found = true
+			}
+		}
+		nd.Assert(found, "designated-address-listed-in-its-readiness-class")
+		if w.ready {
+			nr++
+		} else {
+			nn++
+		}
+	}
+	nd.Assert(len(ready) == nr && len(notReady) == nn, "nothing-but-designated-addresses")
+	nd.Reach("end")
+}
